@@ -21,6 +21,13 @@ NO_PAYLOAD = {"GenericSemaphore", "GenericManualResetEvent", "GenericTimerServic
               "GenericSharedSemaphoreReleaser", "GenericSharedSemaphore", "LocalTimerFuture", "TimerFuture"}
 
 
+# lock witnesses whose cells are verdicts: the local flavour, the thread-safe flavour, and a lock that
+# may be moved but not shared (Send, !Sync) - for the latter the same "never shared between threads"
+# rules as for NoopLock apply to everything that borrows or shares the primitive. The (!Send, Sync)
+# witness stays informational (DESIGN.md C16).
+VERDICT_LOCKS = ("M--", "MSY", "MS-", "")
+
+
 def parse(text):
     cells, pairs = [], []
     for line in text.splitlines():
@@ -49,11 +56,11 @@ def evaluate(cells, pairs):
     def bad(c, trait, want, why, kind="cell"):
         sig = "%s|%s|%s|%s|%s|%s" % (kind, c["name"], c["m"], c["t"], c["a"], trait)
         rec = dict(signature=sig, message="%s<%s,%s,%s>: %s is %s, must be %s (%s)" % (c["name"], c["m"], c["t"], c["a"] or "-", trait, not want, want, why))
-        (viol if c["m"] in ("M--", "MSY", "") else info).append(rec)
+        (viol if c["m"] in VERDICT_LOCKS else info).append(rec)
 
     for c in cells:
         n, m, t, a = c["name"], c["m"], c["t"], c["a"]
-        verdict = m in ("M--", "MSY", "")
+        verdict = m in VERDICT_LOCKS
         verdict_cells += 3 if verdict else 0
         carries_t = n not in NO_PAYLOAD
         # R1: every future and stream is !Unpin (independent of all parameters)
@@ -61,8 +68,8 @@ def evaluate(cells, pairs):
             applied += 1
             if c["unpin"]:
                 bad(c, "Unpin", False, "a future that embeds a wait node must not be movable after its first poll")
-        if m == "M--":
-            # R2: local flavours never cross threads
+        if m in ("M--", "MS-"):
+            # R2: primitives on a lock that is not Sync (local flavour) are never shared between threads
             if n in PRIMS or n == "GenericSharedSemaphore":
                 applied += 1
                 if c["sync"]:
@@ -114,7 +121,7 @@ def evaluate(cells, pairs):
 
     # borrowing / sharing implication on method results
     for p in pairs:
-        verdict = p["m"] in ("M--", "MSY")
+        verdict = p["m"] in ("M--", "MSY", "MS-")
         verdict_cells += 1 if verdict else 0
         applied += 1
         shared = p["name"].startswith("shared:")
